@@ -89,8 +89,14 @@ func FormatNumber(num int64) string {
 }
 
 // FormatFloat64 turns a float64 constant into a string.
+// The text of a finite value always contains a decimal point, so that it is
+// read back as a float64 and never coincides with the text of a number constant.
 func FormatFloat64(floatNum float64) string {
-	return strconv.FormatFloat(floatNum, 'f', -1, 64)
+	s := strconv.FormatFloat(floatNum, 'f', -1, 64)
+	if math.IsInf(floatNum, 0) || math.IsNaN(floatNum) || strings.ContainsRune(s, '.') {
+		return s
+	}
+	return s + ".0"
 }
 
 // FormatTime formats a time instant (nanoseconds since Unix epoch) as an ISO 8601 string.
